@@ -77,7 +77,7 @@ def real_check(c):
 
 
 def gen_component(rng, name, for_index=False):
-    dtype = rng.choice(DTYPES if not for_index else ["int64", "str", "float64", None])
+    dtype = rng.choice(DTYPES if not for_index else ["int64", "str", "float64", "datetime64[ns]", None])
     nchecks = rng.choice([0, 0, 1, 1, 2, 3]) if dtype != "bool" else rng.choice([0, 1])
     if dtype is not None and dtype.startswith("datetime64[ns,"):
         nchecks = 0
@@ -90,6 +90,12 @@ def gen_component(rng, name, for_index=False):
             continue
         kinds.add(canon)
         checks.append(c)
+    if dtype in ("int64", "float64") and rng.random() < 0.12:
+        # coinciding inclusive bounds: a legal single-value range (what infer_schema gives for a constant column)
+        v = rng.choice([0, 5, 7])
+        checks = [{"kind": "ge", "args": [v], "opts": {}, "ts": False}, {"kind": "le", "args": [v], "opts": {}, "ts": False}]
+    if dtype == "datetime64[ns]" and rng.random() < 0.12:
+        checks = [{"kind": "ge", "args": ["2020-01-01"], "opts": {}, "ts": True}, {"kind": "le", "args": ["2020-01-01"], "opts": {}, "ts": True}]
     kw = {"dtype": dtype, "checks": checks, "nullable": rng.random() < 0.3, "unique": rng.random() < 0.2,
           "coerce": rng.random() < 0.3, "title": rng.choice(TEXTS), "description": rng.choice(TEXTS)}
     if for_index:
@@ -113,7 +119,7 @@ def gen_schema(rng):
            "report_duplicates": rng.choice(["all", "all", "exclude_first", "exclude_last"]),
            "unique": (rng.sample(names, min(len(names), rng.randint(1, 2))) if names and rng.random() < 0.2 else None),
            "dtype": rng.choice([None, None, None, "int64", "float64", "str"])}
-    dfchecks = [gen_check(rng, "int64")] if rng.random() < 0.15 else []
+    dfchecks = [gen_check(rng, rng.choice(["int64", "int64", "datetime64[ns]"]))] if rng.random() < 0.2 else []
     share = False
     if len(index) >= 2 and rng.random() < 0.5:
         # the same Check *instance* carried by two components (levels of a MultiIndex are not copied on construction)
@@ -333,6 +339,8 @@ def run_cases(rep, cases):
         rep.case(A, nontrivial=bool(A["columns"]))
         fp0 = fp_schema(S)
         region = "K_C12_sameKindChecks" if same_kind(A) else None
+        frame_ts = any(x.get("ts") for x in A["checks"])
+        region_for = lambda fmt_: ("K_C12_frameLevelDatetimeStats" if (frame_ts and fmt_ in ("yaml", "json")) else region)  # noqa: E731
         failed = False
         with warnings.catch_warnings():
             warnings.simplefilter("ignore")
@@ -356,26 +364,26 @@ def run_cases(rep, cases):
                         text2 = io.to_script(S2)
                 except Exception as e:  # noqa: BLE001
                     rep.count(f"{fmt}:raise")
-                    rep.property_failure(A, f"{fmt}: round trip raises {type(e).__name__}: {str(e)[:100]}", region=region)
+                    rep.property_failure(A, f"{fmt}: round trip raises {type(e).__name__}: {str(e)[:100]}", region=region_for(fmt))
                     failed = True
                     continue
                 fp2 = fp_schema(S2)
                 if fp2 != fp0:
                     rep.count(f"{fmt}:differs")
-                    rep.property_failure(A, f"{fmt}: re-read schema differs: {diff(fp0, fp2)}", region=region)
+                    rep.property_failure(A, f"{fmt}: re-read schema differs: {diff(fp0, fp2)}", region=region_for(fmt))
                     failed = True
                 elif S2 != S:
                     rep.count(f"{fmt}:not-equal")
-                    rep.property_failure(A, f"{fmt}: re-read schema has equal attributes but `==` is False", region=region)
+                    rep.property_failure(A, f"{fmt}: re-read schema has equal attributes but `==` is False", region=region_for(fmt))
                     failed = True
                 elif text2 != text:
                     rep.count(f"{fmt}:text-not-idempotent")
-                    rep.property_failure(A, f"{fmt}: serialising the re-read schema gives a different text", region=region)
+                    rep.property_failure(A, f"{fmt}: serialising the re-read schema gives a different text", region=region_for(fmt))
                     failed = True
                 else:
                     v2 = [verdict(S2, f) for f in frames]
                     if v2 != v0:
-                        rep.property_failure(A, f"{fmt}: verdicts differ on a probe frame: {v0} vs {v2}", region=region)
+                        rep.property_failure(A, f"{fmt}: verdicts differ on a probe frame: {v0} vs {v2}", region=region_for(fmt))
                         failed = True
                     else:
                         rep.count(f"{fmt}:ok")
